@@ -290,7 +290,72 @@ def grid_shard(ctx, si, payload):
             ctx.distinct.add((N, T_))
 
 
+def limit_edges(ctx):
+    """The emergence angle at the horizon and the limb limit at its extremes, evaluated by the real object:
+    a source within a few ulps of the horizon has emergence angle ~0 (a number, not NaN); a limb angle
+    that covers more than the whole disc sets no limit; time fractions in half precision are instants."""
+    import math
+
+    from astropy.time import Time
+    from nuspacesim.simulation.geometry.region_geometry import RegionGeomToO
+
+    rng = ctx.subrng("c13edges")
+    for alt in [13.0, 39.0, 42.0, 65.0, 160.0, 220.0, 292.0, 321.0, 33.0, 525.0, 5000.0, 36000.0] + [float(a) for a in range(1, 400, ctx.pick(7, 1))]:
+        cfg = make_cfg(rng, 3)
+        cfg.detector.initial_position.altitude = alt
+        g = RegionGeomToO(core.validated(cfg, "C13 limit-edge configuration"))
+        aH = float(g.alphaHorizon)
+        nad = [aH]
+        for _ in range(3):
+            nad.append(float(np.nextafter(nad[-1], 0.0)))
+        ctx.count("limit-edges", len(nad))
+        with np.errstate(all="ignore"):
+            b = np.asarray(g.get_beta_angle(np.array(nad)), dtype=np.float64)
+        if not (np.all(np.isfinite(b)) and np.all(b >= 0) and np.all(b < 1e-6)):
+            i = int(np.flatnonzero(~(np.isfinite(b) & (b >= 0) & (b < 1e-6)))[0])
+            ctx.violation("limit-edges", f"altitude {alt} km: a source at nadir angle {nad[i]!r} rad ({i} ulps inside the horizon angle {aH!r}) gets emergence angle {b[i]!r} rad instead of ~0", {"altitude": alt, "ulps": i})
+    # limb angles beyond the whole disc: the kept set equals the one for the whole disc (limit 42 deg)
+    for alt, afl_deg in ((36000.0, 20.0), (36000.0, 90.0), (5000.0, 70.0), (525.0, 136.0)):
+        kept = {}
+        for tag, afl in (("whole disc", None), ("beyond", math.radians(afl_deg))):
+            cfg = make_cfg(rng, 3)
+            cfg.detector.initial_position.altitude = alt
+            cfg.detector.initial_position.latitude, cfg.detector.initial_position.longitude = 0.0, 1.0
+            tg = cfg.simulation.target
+            tg.source_RA, tg.source_DEC, tg.source_date, tg.source_date_format, tg.source_obst = 2.0, 0.0, "2022-03-21T00:00:00", "isot", 86400.0
+            g0 = RegionGeomToO(cfg)
+            cfg.simulation.angle_from_limb = float(g0.alphaHorizon) if afl is None else afl
+            g = RegionGeomToO(cfg)
+            try:
+                with np.errstate(all="ignore"):
+                    g.throw(2000)
+                kept[tag] = np.asarray(g.val_times().jd, dtype=np.float64) if hasattr(g.val_times(), "jd") else np.asarray(g.val_times())
+            except Exception as e:
+                ctx.exception("limit-edges", f"altitude {alt} km, angle from limb {afl_deg} deg: throw raised", e, {"altitude": alt})
+                kept = None
+                break
+        ctx.count("limit-edges")
+        if kept is not None and not (kept["whole disc"].shape == kept["beyond"].shape and np.array_equal(kept["whole disc"], kept["beyond"])):
+            ctx.violation("limit-edges", f"altitude {alt} km: with an angle from the limb of {afl_deg} deg (more than the whole disc) {kept['beyond'].size} of 2000 instants are kept; with the whole disc (limit 42 deg) {kept['whole disc'].size}", {"altitude": alt, "afl_deg": afl_deg})
+    # time fractions as a half / single precision array
+    cfg = make_cfg(rng, 3)
+    cfg.simulation.target.source_obst = 86400.0
+    g = RegionGeomToO(cfg)
+    fr = (np.arange(64) / 64.0)
+    for dt in (np.float16, np.float32):
+        ctx.count("limit-edges")
+        try:
+            t1, t2 = g.generate_times(fr.astype(dt)), g.generate_times(fr.copy())
+            d = np.abs((t1 - t2).sec)
+            if not np.all(d <= 1e-5):
+                ctx.violation("limit-edges", f"generate_times with a {np.dtype(dt).name} array of time fractions k/64: instant {int(np.argmax(np.nan_to_num(d, nan=np.inf)))} is {float(np.nanmax(d)) if np.isfinite(d).any() else float('nan')!r} s away from what the same fractions as float64 give", {"dtype": np.dtype(dt).name})
+        except Exception as e:
+            ctx.exception("limit-edges", f"generate_times with a {np.dtype(dt).name} array raised", e, {})
+
+
 def run(ctx):
+    limit_edges(ctx)
+    ctx.require("limit-edges")
     nmax = ctx.pick(1500, 12000)
     allN = list(range(1, nmax + 1)) + [100000, 1000000]
     rg = ctx.subrng("c13gridT")
